@@ -8,7 +8,9 @@
      http.Redirect / URL.String         -> http_redirect / escape_path
      internalsrv.Internal.ServeHTTP     -> internal_blocks (it also feeds the hide list)
      browse.Browse.ServeHTTP            -> browse (scope, redirect, listing, archive walk)
-     httpserver.hideCasketfile          -> hide_casketfile
+     httpserver.hideCasketfile          -> hide_casketfile (one site config), hide_casketfile_all (its
+                                           one pass over the list of ALL site configs of a Casketfile)
+     strconv.Atoi (browse's ?limit=)    -> atoi / limit_of
 
    A site with a path prefix (address host/pre): [q_path] is the path the handlers see, i.e. after
    httpserver.trimPathPrefix (the harness computes it as the server does: TrimPrefix on the escaped
@@ -206,8 +208,32 @@ Definition visible_kids (fs : fsys) (hide : list bytes) (kids : list node) : lis
   let hid := hidden_ids fs hide in
   filter (fun k => negb (mem_N hid (n_id k))) kids.
 
+(* strconv.Atoi (64-bit int): an optional sign, then one or more decimal digits, the value within
+   the int64 range; None = the error browse answers 400 for *)
+Definition is_digit (c : N) : bool := (48 <=? c) && (c <=? 57).
+Definition digits_val (ds : bytes) : N := fold_left (fun a c => a * 10 + (c - 48)) ds 0.
+Definition atoi (s : bytes) : option Z :=
+  let '(neg, ds) := match s with
+                    | c :: r => if c =? 43 then (false, r) else if c =? 45 then (true, r) else (false, s)
+                    | [] => (false, s)
+                    end in
+  match ds with
+  | [] => None
+  | _ => if forallb is_digit ds then
+           let v := digits_val ds in
+           if neg then (if v <=? 9223372036854775808 then Some (- Z.of_N v)%Z else None)
+           else (if v <? 9223372036854775808 then Some (Z.of_N v) else None)
+         else None
+  end.
+(* handleSortOrder's limit: 0 if the parameter is absent or empty; a negative limit limits nothing *)
+Definition limit_of (s : bytes) : option N :=
+  match s with
+  | [] => Some 0
+  | _ => match atoi s with Some z => Some (Z.to_N z) | None => None end
+  end.
+
 Definition browse (fs : fsys) (hide pages : list bytes) (prefix : bytes) (confs : list bconf)
-           (meth : N) (req ae archive : bytes) : outcome :=
+           (meth : N) (req ae archive limit : bytes) : outcome :=
   let next := serve_file fs hide pages prefix meth req ae in
   match find (fun bc => path_matches false req (b_scope bc)) confs with
   | None => next
@@ -227,7 +253,10 @@ Definition browse (fs : fsys) (hide pages : list bytes) (prefix : bytes) (confs 
           let kids := children fs dirp in
           if existsb (fun k => existsb (beq (rel_name dirp (n_path k))) pages) kids then next
           else match archive with
-               | [] => Listing (visible_kids fs hide kids)
+               | [] => match limit_of limit with       (* sort, order, limit: after the archive test *)
+                       | None => Status 400
+                       | Some _ => Listing (visible_kids fs hide kids)   (* cut to `limit` entries AFTER the filter: see [agree] *)
+                       end
                | _ => if existsb (beq archive) (b_types bc)
                       then Archive (archive_members fs hide dirp)
                       else Status 404
@@ -242,34 +271,93 @@ Definition hide_casketfile (abs_root abs_origin : bytes) : option bytes :=
   | _ => if has_prefix abs_origin abs_root then Some (skipn (length abs_root) abs_origin) else None
   end.
 
+(* hideCasketfile is a parsing callback that runs ONCE, after the `root` directives of the whole
+   Casketfile, over the list of ALL site configs (one per address of every server block, in
+   declaration order): [sc_root] is filepath.Abs(cfg.Root), [sc_origin] filepath.Abs of the path the
+   Casketfile was loaded from ("" if it was not loaded from a file: the loop RETURNS there).  The
+   result lists, per site config, what is appended to its HiddenFiles. *)
+Record sconf := { sc_root : bytes; sc_origin : bytes }.
+Definition hide_entry (c : sconf) : list bytes :=
+  match hide_casketfile (sc_root c) (sc_origin c) with Some h => [h] | None => [] end.
+Fixpoint hide_casketfile_all (cfgs : list sconf) : list (list bytes) :=
+  match cfgs with
+  | [] => []
+  | c :: r => match sc_origin c with
+              | [] => map (fun _ => []) cfgs                       (* return nil *)
+              | _ => hide_entry c :: hide_casketfile_all r
+              end
+  end.
+
+(* filepath.Abs of an absolute path is filepath.Clean of it (= path.Clean on this platform) *)
+Definition abs_path (p : bytes) : bytes := match p with [] => [] | _ => clean p end.
+
 (* ---- a site: internal in front of browse in front of the static file server ---- *)
 Record site := { s_fs : fsys; s_hide : list bytes; s_pages : list bytes; s_prefix : bytes;
                  s_internal : list bytes; s_browse : list bconf }.
-Record request := mkreq { q_meth : N; q_path : bytes; q_ae : bytes; q_archive : bytes }.
+Record request := mkreq { q_meth : N; q_path : bytes; q_ae : bytes; q_archive : bytes; q_limit : bytes }.
 
 Definition handle (s : site) (r : request) : outcome :=
   if internal_blocks (s_internal s) (q_path r) then Status 404
-  else browse (s_fs s) (s_hide s) (s_pages s) (s_prefix s) (s_browse s) (q_meth r) (q_path r) (q_ae r) (q_archive r).
+  else browse (s_fs s) (s_hide s) (s_pages s) (s_prefix s) (s_browse s) (q_meth r) (q_path r) (q_ae r) (q_archive r) (q_limit r).
 
-(* ---- the fixture the harness writes to disk (Gen_C02b is regenerated from the same table) ---- *)
-Definition fixture_fs : fsys :=
-  map (fun t => match t with (p, d, i) => {| n_path := p; n_dir := d; n_id := i |} end) gen_c02_fixture.
+(* ---- the fixture the harness writes to disk (Gen_C02b is regenerated from the same tables) ---- *)
+Definition fs_of_table (t : list (bytes * bool * N)) : fsys :=
+  map (fun t => match t with (p, d, i) => {| n_path := p; n_dir := d; n_id := i |} end) t.
+Definition fixture_fs : fsys := fs_of_table gen_c02_fixture.
+Definition mtree_fs : fsys := fs_of_table gen_c02_mtree.
+Definition stree_fs : fsys := fs_of_table gen_c02_stree.
 (* the hide list a site ends up with: hideCasketfile's entry (from the absolute root and origin
    paths the instance was started with), then the paths of the `internal` directives *)
-Definition site_hide (abs_root abs_origin : bytes) : list bytes :=
-  match hide_casketfile abs_root abs_origin with Some h => [h] | None => [] end ++ gen_c02_internal.
+Definition site_hide_on (abs_root abs_origin : bytes) (internal : list bytes) : list bytes :=
+  match hide_casketfile abs_root abs_origin with Some h => [h] | None => [] end ++ internal.
+Definition site_hide (abs_root abs_origin : bytes) : list bytes := site_hide_on abs_root abs_origin gen_c02_internal.
 (* prefix = the path of the site's address ("/" if none); scope = "" : no browse directive *)
+Definition mksite_on (fs : fsys) (abs_root abs_origin : bytes) (internal : list bytes) (prefix scope : bytes)
+           (types : list bytes) : site :=
+  {| s_fs := fs; s_hide := site_hide_on abs_root abs_origin internal; s_pages := gen_default_index_pages;
+     s_prefix := prefix; s_internal := internal;
+     s_browse := match scope with [] => [] | _ => [{| b_scope := scope; b_types := types |}] end |}.
 Definition mksite (abs_root abs_origin prefix scope : bytes) (types : list bytes) : site :=
-  {| s_fs := fixture_fs; s_hide := site_hide abs_root abs_origin; s_pages := gen_default_index_pages;
-     s_prefix := prefix; s_internal := gen_c02_internal;
+  mksite_on fixture_fs abs_root abs_origin gen_c02_internal prefix scope types.
+
+(* ---- a site of a multi-site Casketfile ----
+   The roots of the sites are sub-trees of one tree ([mtree_fs], on disk at [base]).  [subtree fs d]
+   is what http.Dir(base ++ d) shows: the nodes at and below d, re-rooted. *)
+Definition reroot (d p : bytes) : option bytes :=
+  if beq d [SLASH] then Some p
+  else if beq p d then Some [SLASH]
+  else if is_desc d p then Some (SLASH :: rel_name d p)
+  else None.
+Definition subtree (fs : fsys) (d : bytes) : fsys :=
+  flat_map (fun n => match reroot d (n_path n) with
+                     | Some p => [{| n_path := p; n_dir := n_dir n; n_id := n_id n |}]
+                     | None => []
+                     end) fs.
+Definition abs_of (base rel : bytes) : bytes := if beq rel [SLASH] then base else base ++ rel.
+
+(* [roots]: the `root` argument of every site config, in the order of httpContext.siteConfigs, as
+   written in the Casketfile (absolute, not necessarily cleaned); [origin]: where the Casketfile
+   was loaded from; [pos]: the site config the request goes to.  Its hide list is ITS entry of
+   hideCasketfile's pass over the whole list, then its `internal` paths. *)
+Definition msite_confs (roots : list bytes) (origin : bytes) : list sconf :=
+  map (fun r => {| sc_root := abs_path r; sc_origin := abs_path origin |}) roots.
+Definition msite (roots : list bytes) (origin : bytes) (pos : nat) (rootrel scope : bytes)
+           (types : list bytes) : site :=
+  {| s_fs := subtree mtree_fs rootrel;
+     s_hide := nth pos (hide_casketfile_all (msite_confs roots origin)) [] ++ gen_c02_minternal;
+     s_pages := gen_default_index_pages; s_prefix := [SLASH]; s_internal := gen_c02_minternal;
      s_browse := match scope with [] => [] | _ => [{| b_scope := scope; b_types := types |}] end |}.
 
 (* ---- observations ---- *)
 (* kind: 0 plain response, 1 directory listing, 2 archive.  ids: identities of the fixture files
    whose token occurs in the fully decoded / un-archived body (1 = a file OUTSIDE the root,
    2 = unknown token).  names: listed names / archive member paths relative to the directory. *)
+(* hids: identities of the files the response HEADERS describe (ETag, Last-Modified, and on a file
+   answer Content-Length: every regular file of the fixture has a size and a modification time of
+   its own), on HEAD as on GET.  counts: the numbers of directories and of files an HTML listing
+   announces ([] if it announces none). *)
 Record obs := mkobs { o_status : N; o_loc : bytes; o_ce : bytes; o_kind : N;
-                      o_ids : list N; o_names : list bytes }.
+                      o_ids : list N; o_names : list bytes; o_hids : list N; o_counts : list N }.
 
 Inductive case :=
 | CSkip                                   (* net/http rejected the request line; nothing to judge *)
@@ -277,33 +365,71 @@ Inductive case :=
 (* a request that did not reach the site's handlers (a site with a path prefix that the request
    path does not start with: the server answers "no such site"): only the executable property
    is judged *)
-| CContract (s : site) (r : request) (o : obs).
+| CContract (s : site) (r : request) (o : obs)
+(* a request to the site config at position [pos] of a multi-site Casketfile loaded from
+   [origin]; [base]: where [mtree_fs] is on disk; [rootrel]: that site's root relative to [base] *)
+| CMulti (base : bytes) (roots : list bytes) (origin : bytes) (pos : nat) (rootrel scope : bytes)
+         (types : list bytes) (r : request) (o : obs).
 
 Definition mem_b (l : list bytes) (x : bytes) : bool := existsb (beq x) l.
 Definition seteq_N (a b : list N) : bool := forallb (mem_N b) a && forallb (mem_N a) b.
 Definition seteq_b (a b : list bytes) : bool := forallb (mem_b b) a && forallb (mem_b a) b.
 
+Definition count_kind (dir : bool) (l : list node) : N :=
+  N.of_nat (length (filter (fun k => Bool.eqb (n_dir k) dir) l)).
+
+(* what an HTML listing of directory d announces: directoryListing counts every entry of the
+   directory, then passes over the hidden ones *)
+Definition announced_counts (fs : fsys) (d : bytes) : N * N :=
+  (count_kind true (children fs d), count_kind false (children fs d)).
+
 Definition agree (s : site) (r : request) (o : obs) : bool :=
   let body := negb (q_meth r =? 1) in                     (* HEAD answers carry no body *)
   match handle s r with
-  | Status c => (o_status o =? c) && beq (o_loc o) [] && seteq_N (o_ids o) [] && (o_kind o =? 0)
-  | Redirect c l => (o_status o =? c) && beq (o_loc o) l && seteq_N (o_ids o) []
+  | Status c => (o_status o =? c) && beq (o_loc o) [] && seteq_N (o_ids o) [] && (o_kind o =? 0) &&
+                seteq_N (o_hids o) []
+  | Redirect c l => (o_status o =? c) && beq (o_loc o) l && seteq_N (o_ids o) [] && seteq_N (o_hids o) []
   | Serve n enc =>
       (o_status o =? 200) && beq (o_loc o) [] && (o_kind o =? 0) &&
       beq (o_ce o) (match enc with Some e => e | None => [] end) &&
-      seteq_N (o_ids o) (if body && negb (n_dir n) then [n_id n] else [])
+      seteq_N (o_ids o) (if body && negb (n_dir n) then [n_id n] else []) &&
+      (* on HEAD as on GET the headers describe that file: ETag and Content-Length are the served
+         file's; Last-Modified is the plain file's when a precompressed sibling is served in its place *)
+      match enc with
+      | None => seteq_N (o_hids o) [n_id n]
+      | Some e =>
+          mem_N (o_hids o) (n_id n) &&
+          forallb (fun id => (id =? n_id n) ||
+                     existsb (fun b => (n_id b =? id) &&
+                                existsb (fun x => beq (fst x) e && beq (n_path b ++ snd x) (n_path n))
+                                        gen_static_encodings) (s_fs s)) (o_hids o)
+      end
   | Listing kids =>
       let d := jail (q_path r) in
-      (o_status o =? 200) && beq (o_loc o) [] && seteq_N (o_ids o) [] &&
-      (if body then (o_kind o =? 1) && seteq_b (o_names o) (map (fun k => rel_name d (n_path k)) kids)
-       else true)
+      (o_status o =? 200) && beq (o_loc o) [] && seteq_N (o_ids o) [] && seteq_N (o_hids o) [] &&
+      (if body then
+         (o_kind o =? 1) &&
+         (* sorted by ?sort/?order (an oracle), then cut to the first `limit` entries if
+            0 < limit <= their number: that many of the visible entries, or all of them *)
+         (let names := map (fun k => rel_name d (n_path k)) kids in
+          let lim := match limit_of (q_limit r) with Some n => n | None => 0 end in
+          if (0 <? lim) && (lim <=? N.of_nat (length names))
+          then forallb (mem_b names) (o_names o) && (N.of_nat (length (o_names o)) =? lim)
+          else seteq_b (o_names o) names) &&
+         (* the numbers an HTML listing announces are counted BEFORE the IsHidden test *)
+         match o_counts o with
+         | [] => true
+         | [nd; nf] => (nd =? fst (announced_counts (s_fs s) d)) && (nf =? snd (announced_counts (s_fs s) d))
+         | _ => false
+         end
+       else (o_kind o =? 0) && seteq_b (o_names o) [])
   | Archive ms =>
       let d := jail (q_path r) in
-      (o_status o =? 200) && beq (o_loc o) [] &&
+      (o_status o =? 200) && beq (o_loc o) [] && seteq_N (o_hids o) [] &&
       (if body then (o_kind o =? 2) &&
                     seteq_b (o_names o) (map (fun k => rel_name d (n_path k)) ms) &&
                     seteq_N (o_ids o) (map n_id (filter (fun k => negb (n_dir k)) ms))
-       else seteq_N (o_ids o) [])
+       else (o_kind o =? 0) && seteq_N (o_ids o) [] && seteq_b (o_names o) [])
   end.
 
 (* ---- the executable statement of the property, evaluated on the observation alone ---- *)
@@ -340,11 +466,23 @@ Definition allowed_static (pages : list bytes) (req ae p : bytes) : bool :=
   mem_b bases p ||
   existsb (fun e => accepts ae (fst e) && mem_b (map (fun b => b ++ snd e) bases) p) gen_static_encodings.
 
+(* identities 1 and 2 stand for content that is NOT a file of the tree (a token or a header of a file
+   outside the root, an unknown one): never "a regular file located inside the site root" *)
+Definition inside_id (id : N) : bool := 2 <? id.
+
+Definition counts_ok (counts : list N) (vis : list node) : bool :=
+  match counts with
+  | [] => true
+  | [nd; nf] => (nd =? count_kind true vis) && (nf =? count_kind false vis)
+  | _ => false
+  end.
+
 Definition spec_ok_ref (s : site) (r : request) (o : obs) : bool :=
   let fs := s_fs s in
   let c := jail (q_path r) in
   (* id is the identity of a regular, non-hidden file inside the root at a permitted place *)
   let ok_file (where_ : bytes -> bool) (id : N) :=
+    inside_id id &&
     existsb (fun n => (n_id n =? id) && negb (n_dir n) && negb (hidden_id fs (s_hide s) id) &&
                       where_ (n_path n)) fs in
   let visible (p : bytes) :=
@@ -355,10 +493,16 @@ Definition spec_ok_ref (s : site) (r : request) (o : obs) : bool :=
   same_origin (o_loc o) &&
   match o_kind o with
   | 0 => forallb (ok_file (allowed_static (s_pages s) (q_path r) (q_ae r))) (o_ids o) &&
-         (* a 200 answer to GET is exactly one file *)
-         (if (o_status o =? 200) && (q_meth r =? 0) then N.of_nat (length (o_ids o)) =? 1 else true)
-  | 1 => seteq_N (o_ids o) [] && forallb (fun nm => visible (child_path c nm)) (o_names o)
-  | _ => forallb (ok_file (fun p => is_desc c p && negb (below_hidden p))) (o_ids o) &&
+         (* what the HEADERS describe (HEAD as well as GET) is subject to the same rule as a body *)
+         forallb (ok_file (allowed_static (s_pages s) (q_path r) (q_ae r))) (o_hids o) &&
+         (* a 200 answer to GET is exactly one file, and its headers describe that file *)
+         (if (o_status o =? 200) && (q_meth r =? 0)
+          then (N.of_nat (length (o_ids o)) =? 1) && forallb (mem_N (o_hids o)) (o_ids o) else true)
+  | 1 => seteq_N (o_ids o) [] && seteq_N (o_hids o) [] &&
+         forallb (fun nm => visible (child_path c nm)) (o_names o) &&
+         (* the numbers of directories and files a listing announces count what it lists *)
+         counts_ok (o_counts o) (filter (fun k => negb (hidden_id fs (s_hide s) (n_id k))) (children fs c))
+  | _ => forallb (ok_file (fun p => is_desc c p && negb (below_hidden p))) (o_ids o) && seteq_N (o_hids o) [] &&
          forallb (fun nm => visible (child_path c nm) && negb (below_hidden (child_path c nm))) (o_names o)
   end.
 
@@ -377,7 +521,7 @@ Definition spec_ok (s : site) (r : request) (o : obs) : bool :=
   let c := jail (q_path r) in
   let hid := hidden_ids fs (s_hide s) in
   let ok_file (where_ : bytes -> bool) (id : N) :=
-    negb (mem_N hid id) &&
+    inside_id id && negb (mem_N hid id) &&
     existsb (fun n => if (n_id n =? id) && negb (n_dir n) then where_ (n_path n) else false) fs in
   let visible (p : bytes) :=
     match fs_at fs p with Some n => negb (mem_N hid (n_id n)) | None => false end in
@@ -386,11 +530,37 @@ Definition spec_ok (s : site) (r : request) (o : obs) : bool :=
   same_origin (o_loc o) &&
   match o_kind o with
   | 0 => (let allowed := allowed_static_set (s_pages s) (q_path r) (q_ae r) in
-          forallb (ok_file (mem_b allowed)) (o_ids o)) &&
-         (if (o_status o =? 200) && (q_meth r =? 0) then N.of_nat (length (o_ids o)) =? 1 else true)
-  | 1 => seteq_N (o_ids o) [] && forallb (fun nm => visible (child_path c nm)) (o_names o)
-  | _ => forallb (ok_file (fun p => is_desc c p && negb (below_hidden p))) (o_ids o) &&
+          forallb (ok_file (mem_b allowed)) (o_ids o) && forallb (ok_file (mem_b allowed)) (o_hids o)) &&
+         (if (o_status o =? 200) && (q_meth r =? 0)
+          then (N.of_nat (length (o_ids o)) =? 1) && forallb (mem_N (o_hids o)) (o_ids o) else true)
+  | 1 => seteq_N (o_ids o) [] && seteq_N (o_hids o) [] &&
+         forallb (fun nm => visible (child_path c nm)) (o_names o) &&
+         counts_ok (o_counts o) (filter (fun k => negb (mem_N hid (n_id k))) (children fs c))
+  | _ => forallb (ok_file (fun p => is_desc c p && negb (below_hidden p))) (o_ids o) && seteq_N (o_hids o) [] &&
          forallb (fun nm => visible (child_path c nm) && negb (below_hidden (child_path c nm))) (o_names o)
+  end.
+
+(* ---- multi-site Casketfiles: the clause about the origin Casketfile, stated WITHOUT the model of
+   hideCasketfile.  If the file the configuration was loaded from lies inside this site's root
+   (component-wise: [reroot], not a string-prefix test), then no body, no header, no listing or
+   archive entry of any answer of the site is that file (by identity: hard links included). *)
+Definition origin_in_root (base origin rootrel : bytes) : option bytes :=
+  if has_prefix origin base then reroot rootrel (skipn (length base) origin) else None.
+Definition origin_clause (base origin rootrel : bytes) (fs : fsys) (r : request) (o : obs) : bool :=
+  let c := jail (q_path r) in
+  match origin_in_root base origin rootrel with
+  | None => true
+  | Some p =>
+    match fs_at fs p with
+    | None => true
+    | Some cf =>
+        negb (mem_N (o_ids o) (n_id cf)) && negb (mem_N (o_hids o) (n_id cf)) &&
+        ((o_kind o =? 0) ||
+         forallb (fun nm => match fs_at fs (child_path c nm) with
+                            | Some n => negb (n_id n =? n_id cf)
+                            | None => true
+                            end) (o_names o))
+    end
   end.
 
 Definition judge (c : case) : N :=
@@ -398,4 +568,8 @@ Definition judge (c : case) : N :=
   | CSkip => 0
   | CReq s r o => verdict (agree s r o) (spec_ok s r o)
   | CContract s r o => verdict true (spec_ok s r o)
+  | CMulti base roots origin pos rootrel scope types r o =>
+      let s := msite roots origin pos rootrel scope types in
+      verdict (agree s r o && beq (abs_path (nth pos roots [])) (abs_of base rootrel))
+              (spec_ok s r o && origin_clause base origin rootrel (s_fs s) r o)
   end.
